@@ -160,7 +160,7 @@ Print Assumptions C16_ver_lt_dotted.
 
 (* ---- Proofs.TaggedFacts ---- *)
 From Coq Require Import List Bool NArith ZArith Arith.
-From BV Require Import Lib.PyStr Lib.Decimal Lib.Regex Model.Pep440 Proofs.CalverE2E Proofs.TaggedFacts.
+From BV Require Import Lib.PyStr Lib.Decimal Lib.Regex Model.Pep440 Proofs.DottedJoinFacts Proofs.TaggedFacts.
 Import ListNotations.
 Theorem C16_parse_tagged_sep : forall (v : bool) (ds : list (list N)) (sep : list N) (t : btag) (num : list N), ds <> [] -> Forall dstr ds -> sep_ok sep -> all_digits num = true -> parse_pep440 (tagged v ds sep t num) = Some (tag_pver (map undec ds) t (undec num)).
 Proof. exact parse_tagged_sep. Qed.
